@@ -5,6 +5,8 @@
             na; (m,k)*na; nb; (m,k)*nb; nq; (m,k)*nq]
            K >= every k and K >= 0: the common tick is 2^-K s
            | [8; linear; K; n; tbin_m; tbin_k; na; ...; nb; ...; nq; ...]   (whole function, histogram length n)
+           | [9; K; n; tbin_m; tbin_k; na; ...; nb; ...]   (coarse offset only)
+           | [6; nr; nc; x_00 ..]   (parabolic_max on a 2-D integer-valued array)
            | [7; n; x_0 .. x_(n-1)]   (parabolic_max on an integer-valued 1-D array)
    output: [0]                                   a polyfit call was singular
          | 1 :: enc(ib after first pass) ++ enc(final ib) ++ [frag1; frag2]
@@ -64,6 +66,26 @@ Definition frag2 (eps thr : Q) (f : a2b) (tsa tsb : list Q) (ib1 : list Z) : boo
 
 Definition run (inp : list Z) : list Z :=
   match inp with
+  | 9 :: K :: n :: tm :: tk_ :: rest =>
+      (* the coarse offset only: [2] IndexError | 1 :: floor(delta*10^15) :: cstat *)
+      let den := Z.to_pos (2 ^ K) in
+      let tbin := tk K tm tk_ in
+      let '(tsa, r1) := dec_tlist K rest in
+      let '(tsb, _) := dec_tlist K r1 in
+      let tmin := lmin (tsa ++ tsb) in
+      let v := xcorr n (occupied tbin tmin tsa) (occupied tbin tmin tsb) in
+      let mx := fold_left Z.max v 0 in
+      match coarse_delta n den tbin tsa tsb with
+      | None => [2]
+      | Some d => [1; fixq (10 ^ 15) d; enc_bool (1 <? Z.of_nat (length (filter (fun c => c =? mx) v)));
+                   argmax_first (map inject_Z v); mx; fold_left Z.add v 0]
+      end
+  | 6 :: nr :: nc :: xs =>
+      (* parabolic_max on an integer-valued 2-D array (nr rows of nc): per row [floor(ipeak*10^12); floor(maxi*10^12)] *)
+      let fix rows (k : nat) (l : list Z) : list (list Q) :=
+        match k with O => [] | S k' => map inject_Z (firstn (Z.to_nat nc) l) :: rows k' (skipn (Z.to_nat nc) l) end in
+      flat_map (fun r => [fixq (10 ^ 12) (fst r); fixq (10 ^ 12) (snd r)])
+               (parabolic_max_rows (rows (Z.to_nat nr) xs))
   | 8 :: lin :: K :: n :: tm :: tk_ :: rest =>
       (* the whole function, delta_t computed by the model from histogram length n:
          [2] IndexError | 0 :: floor(delta*10^15) :: cstat  (singular fit)
